@@ -276,6 +276,7 @@ func OASRuleFields() []*Field {
 	add(oasRuleField("s_all", "string", &Rules{Required: true, MinLen: U(1), MaxLen: U(8), Pattern: Str("^a"), StrIn: []string{"a", "ab", "abcdefghij", "b"}}))
 	for _, w := range []string{"email", "uuid", "uri", "hostname", "ip", "ipv4", "ipv6"} {
 		add(oasRuleField("s_"+w, "string", &Rules{WellKnown: w}))
+		add(oasRuleField("s_"+w+"_off", "string", &Rules{WellKnownOff: w, MaxLen: U(64)}))
 	}
 	add(oasRuleField("s_opt", "string", &Rules{MinLen: U(2)}, Opt()))
 	add(oasRuleField("s_req", "string", &Rules{Required: true}))
